@@ -112,8 +112,8 @@ func runC06(c c06Case, rec *stat.Rec) *stat.Failure {
 func init() { register("C06", "C06/cut", runC06) }
 
 var c06Readers = []rcfg{
-	{Conc: 1, Sizes: []int{64 << 20}}, {Conc: 1, Sizes: []int{7}}, {Conc: 1, WriteTo: true},
-	{Conc: 2, Sizes: []int{4095}}, {Conc: 4, WriteTo: true}, {Conc: 4, Sizes: []int{64 << 20}},
+	{Conc: 1, Sizes: []int{64 << 20}}, {Conc: 1, Sizes: []int{7}, Seeker: true}, {Conc: 1, WriteTo: true},
+	{Conc: 2, Sizes: []int{4095}}, {Conc: 4, WriteTo: true, Seeker: true}, {Conc: 4, Sizes: []int{64 << 20}},
 }
 
 // cutsFor lists the prefix lengths explored for a frame: all of them for small frames,
@@ -183,7 +183,7 @@ func TestC06(t *testing.T) {
 			c.Del.Flush = nil
 		}
 		if rapid.IntRange(0, 3).Draw(rt, "skippable?") == 0 {
-			c.Skip = rapid.SliceOfN(rapid.SampledFrom([]int{0, 1, 3, 4, 9, 200}), 1, 2).Draw(rt, "skip")
+			c.Skip = rapid.SliceOfN(rapid.SampledFrom([]int{0, 1, 3, 4, 9, 200, 9000, 70000}), 1, 2).Draw(rt, "skip")
 		}
 		fz, f := buildC06Frame(c)
 		if f != nil {
